@@ -18,6 +18,8 @@ def run(ctx):
             k = (b["id"].split("-")[0], b["kind"])
             if k not in seen or i % 3 == ctx.seed % 3 or len(b["frame"]) > 300:      # the few long frames (large option areas) always stay
                 keep.append(b)
+            else:
+                keep.append(dict(b, lite=True))      # thinned out: only zero / wrap-around values in the 16-bit positions
             seen.add(k)
         base = keep
     # the largest frames the 16-bit length field allows; mutations confined to the first / last bytes
